@@ -200,7 +200,56 @@ def run_long(period, P, n, body, res):
     return []
 
 
-PAIR_VARIANTS = ["nothing", "free-again", "exit-again", "wait-on-released", "garbage-collect", "release-after-second-created"]
+PAIR_VARIANTS = ["nothing", "free-again", "exit-again", "wait-on-released", "garbage-collect", "release-after-second-created", "overlapping-with-blocks"]
+
+
+def run_overlap(period, P, inner_first, res):
+    """with A: with B: ... - leaving one with-block releases exactly that object, whatever the other one is doing."""
+    import hal.simulation as hs
+    import wpilib
+    from robotpy_ext.misc.precise_delay import NotifierDelay
+
+    now = wpilib.RobotController.getFPGATime
+    hs.stepTimingAsync(5)
+    n0 = hs.getNumNotifiers()
+    ra, rb = Rig(), Rig()
+    a = NotifierDelay(period)
+    t0a = now()
+    ra.delay = a
+    a.__enter__()
+    hs.stepTimingAsync(P // 5)
+    b = NotifierDelay(period)
+    t0b = now()
+    rb.delay = b
+    b.__enter__()
+    try:
+        first, second, rfirst, rsecond, t0second = (b, a, rb, ra, t0a) if inner_first else (a, b, ra, rb, t0b)
+        first.__exit__(None, None, None)
+        if hs.getNumNotifiers() != n0 + 1:
+            return [("not-released:overlapping-with-blocks", f"after leaving one of two overlapping with-blocks getNumNotifiers is {hs.getNumNotifiers()}, expected {n0 + 1}")]
+        t = now()
+        rfirst.cmd.put(("wait",))
+        ev = rfirst.get(5)
+        ev = rfirst.get(5) if ev[0] == "enter" else ev
+        if ev[0] != "ret" or now() != t:
+            return [("wait-after-release-blocks:overlapping-with-blocks", f"wait() on the object whose with-block was left -> {ev}")]
+        r = checked_wait(rsecond, t0second, 1, P, "overlapping-with-blocks")
+        if r:
+            return [r]
+        second.__exit__(None, None, None)
+        if hs.getNumNotifiers() != n0:
+            return [("not-released:overlapping-with-blocks", f"getNumNotifiers {hs.getNumNotifiers()} after leaving both with-blocks, {n0} before")]
+    finally:
+        for rg in (ra, rb):
+            rg.cmd.put(("stop",))
+        for dd in (a, b):
+            try:
+                dd.free()
+            except Exception:
+                pass
+        ra.th.join(2)
+        rb.th.join(2)
+    return []
 
 
 def run_pair(period, P, variant, first_release, res):
@@ -294,7 +343,8 @@ def work_extra(item):
             for rel in ("free", "with"):
                 res.executions += 1
                 res.checks += 4
-                for sig, msg in run_pair(period, P, variant, rel, res):
+                found = run_overlap(period, P, rel == "with", res) if variant == "overlapping-with-blocks" else run_pair(period, P, variant, rel, res)
+                for sig, msg in found:
                     if sig == "harness":
                         raise core.HarnessError(msg)
                     res.violation(sig, f"period {P} us, variant {variant}, first object released by {rel}: {msg}", dict(engine="notifier", kind="pair", period=period, P=P, variant=variant, release=rel))
